@@ -14,6 +14,10 @@ PROP = {
         {"name": "vterm_cxx", "quick": 2000000, "thorough": 24000000, "maxlen": 300},
         {"name": "vterm_c_long", "quick": 40000, "thorough": 400000, "maxlen": 64},
         {"name": "vterm_cxx_long", "quick": 30000, "thorough": 300000, "maxlen": 64},
+        {"name": "vterm_c_reinit", "quick": 150000, "thorough": 1500000, "maxlen": 200},
+        {"name": "vterm_cxx_reinit", "quick": 120000, "thorough": 1200000, "maxlen": 200},
+        {"name": "vterm_c_silent", "quick": 100000, "thorough": 1000000, "maxlen": 200},
+        {"name": "vterm_cxx_silent", "quick": 80000, "thorough": 800000, "maxlen": 200},
         {"name": "sline_api_big", "quick": 30000, "thorough": 400000, "maxlen": 200},
         {"name": "sline_api", "quick": 2000000, "thorough": 20000000, "maxlen": 200},
     ],
